@@ -5,8 +5,8 @@ VERIF = os.path.abspath(os.path.join(os.path.dirname(__file__), "..", ".."))
 REPO = os.environ.get("VERIF_REPO", "/repo")
 CRATE_REL = "crates/axmos-db"
 HARNESS_DIR = os.path.join(VERIF, "harness")
-EVIDENCE_DIR = os.path.join(VERIF, "evidence")
-REPLAY_DIR = os.path.join(VERIF, "replays")
+EVIDENCE_DIR = os.environ.get("VERIF_EVIDENCE_DIR", os.path.join(VERIF, "evidence"))
+REPLAY_DIR = os.environ.get("VERIF_REPLAY_DIR", os.path.join(VERIF, "replays"))
 KNOWN_FILE = os.path.join(VERIF, "known_findings.json")
 NIGHTLY = "nightly"
 
